@@ -181,7 +181,14 @@ def ETIMEDOUT : Nat := 110
 /-- `if r == -1 && errno == ETIMEDOUT { set_errno(EINPROGRESS) }` at the end of the hooked connect -/
 def remapTimeout (o : Out) : Out := if o.ret = -1 ∧ o.errno = ETIMEDOUT then { o with errno := EINPROGRESS } else o
 
-def connectCore (blocking : Bool) (limit : Nat) (start : Nat) (first : CResp) (waits : List WResp) : Out :=
+/-- what the socket says once the wait is over: `pending = some e` is an asynchronous failure
+(`SO_ERROR`, e.g. ECONNREFUSED), `none` a connection -/
+def afterWait (o : Out) (pending : Option Nat) : Out :=
+  match pending with
+  | some e => { o with ret := -1, errno := e }
+  | none => o
+
+def connectCore (blocking : Bool) (limit : Nat) (start : Nat) (first : CResp) (waits : List WResp) (pending : Option Nat := none) : Out :=
   let base : Out := { ret := 0, errno := 0, reqs := [⟨[], 1⟩], waits := [], blockingAfter := blocking, elapsed := 0, moved := 0, lastErr := none }
   match first with
   | .moved _ => base                                            -- connected at once
@@ -191,11 +198,11 @@ def connectCore (blocking : Bool) (limit : Nat) (start : Nat) (first : CResp) (w
     else
       match waits with
       | .fail :: _ => { base with ret := -1, errno := errnoOf r, lastErr := some (errnoOf r), waits := [waitTime start limit start] }
-      | .full :: _ => { base with waits := [waitTime start limit start], elapsed := waitTime start limit start, lastErr := some (errnoOf r) }
-      | .ev ns :: _ => { base with waits := [waitTime start limit start], elapsed := min ns (waitTime start limit start), lastErr := some (errnoOf r) }
+      | .full :: _ => afterWait { base with waits := [waitTime start limit start], elapsed := waitTime start limit start, lastErr := some (errnoOf r) } pending
+      | .ev ns :: _ => afterWait { base with waits := [waitTime start limit start], elapsed := min ns (waitTime start limit start), lastErr := some (errnoOf r) } pending
       | [] => { base with ret := -1, errno := errnoOf r, lastErr := some (errnoOf r), waits := [waitTime start limit start] }
 
-def connectCall (blocking : Bool) (limit : Nat) (start : Nat) (first : CResp) (waits : List WResp) : Out :=
-  remapTimeout (connectCore blocking limit start first waits)
+def connectCall (blocking : Bool) (limit : Nat) (start : Nat) (first : CResp) (waits : List WResp) (pending : Option Nat := none) : Out :=
+  remapTimeout (connectCore blocking limit start first waits pending)
 
 end Oc.Nio
